@@ -36,6 +36,19 @@ class EventQueueError(SimplelineError):
     """
 
 
+class _QueueItem():
+    """Signal stored in the queue together with the order of its arrival."""
+
+    def __init__(self, signal, order):
+        self.signal = signal
+        self.order = order
+
+    def __lt__(self, other):
+        if self.signal.priority != other.signal.priority:
+            return self.signal.priority < other.signal.priority
+        return self.order < other.order
+
+
 class EventQueue():
     """Class for managing signal queue.
 
@@ -49,6 +62,19 @@ class EventQueue():
         self._queue = PriorityQueue()
         self._contained_screens = set()
         self._lock = Lock()
+        self._order_lock = Lock()
+        self._order_counter = 0
+
+    def _put(self, signal):
+        """Put the signal to the queue behind all signals with the same priority.
+
+        The priority queue is not stable, so every signal is stored together with
+        the order of its arrival to keep FIFO ordering of signals with the same priority.
+        """
+        # pylint: disable=not-context-manager
+        with self._order_lock:
+            self._queue.put(_QueueItem(signal, self._order_counter))
+            self._order_counter += 1
 
     def empty(self):
         """Return true if Queue is empty.
@@ -63,7 +89,7 @@ class EventQueue():
         :param signal: Signal which should be enqueued to this queue.
         :type signal: Signal class based on `simpleline.event_loop.signals.AbstractSignal`.
         """
-        self._queue.put(signal)
+        self._put(signal)
 
     def enqueue_if_source_belongs(self, signal, source):
         """Enqueue signal to this queue if the signal source belongs to this queue.
@@ -79,7 +105,7 @@ class EventQueue():
         :rtype: bool
         """
         if self.contains_source(source):
-            self._queue.put(signal)
+            self._put(signal)
             return True
 
         return False
@@ -93,7 +119,7 @@ class EventQueue():
         :return: Queued signal.
         :rtype: Signal based on class `simpleline.event_loop.signals.AbstractSignal`.
         """
-        return self._queue.get()
+        return self._queue.get().signal
 
     def get_top_event_if_priority(self, priority):
         """Return top enqueued signal if priority is equal to `priority`. Otherwise `None`.
@@ -104,11 +130,12 @@ class EventQueue():
         :return: Queued signal if it has requested priority. Otherwise `None`.
         :rtype: Signal based on class `simpleline.event_loop.signals.AbstractSignal` or `None`.
         """
-        event = self._queue.get()
-        if event.priority == priority:
-            return event
+        item = self._queue.get()
+        if item.signal.priority == priority:
+            return item.signal
 
-        self._queue.put(event)
+        # return the signal to its original place in the queue
+        self._queue.put(item)
         return None
 
     def add_source(self, signal_source):
